@@ -155,8 +155,21 @@ def table():
     return "\n".join(rows)
 
 
+def write_table():
+    """Replace the table between the markers of DESIGN.md."""
+    p = os.path.join(ROOT, "DESIGN.md")
+    with open(p) as f:
+        s = f.read()
+    a, b = "<!-- SEEDED_TABLE_BEGIN -->", "<!-- SEEDED_TABLE_END -->"
+    i, j = s.index(a) + len(a), s.index(b)
+    with open(p, "w") as f:
+        f.write(s[:i] + "\n" + table() + "\n" + s[j:])
+
+
 if __name__ == "__main__":
-    if sys.argv[1] == "confirm":
+    if sys.argv[1] == "write-table":
+        write_table()
+    elif sys.argv[1] == "confirm":
         r = confirm(sys.argv[2], sys.argv[3])
         print(json.dumps(r, indent=1))
         sys.exit(0 if r.get("confirmed") else 1)
